@@ -376,7 +376,7 @@ def main(tier):
     rep = Report("C07", tier, "exploration")
     quick = tier == "quick"
     variant = "ossl-asan" if quick else "ossl-plain"
-    deadline = time.time() + (170 if quick else 1700)
+    deadline = time.time() + (600 if quick else 1700)
     configs = ["ALL", "negative"] if quick else ["ALL", "positive", "negative"]
     tot, samples, runs = run_matrix(rep, variant, configs, deadline)
     if tot["cells_ok"] < 100:
